@@ -106,12 +106,12 @@ func cfgDigest(sp *saml2.SAMLServiceProvider) string {
 }
 
 var (
-	reID      = regexp.MustCompile(`ID="_[0-9a-f-]{36}"`)
-	reSigVal  = regexp.MustCompile(`(?s)<ds:SignatureValue>.*?</ds:SignatureValue>`)
-	reDigest  = regexp.MustCompile(`(?s)<ds:DigestValue>.*?</ds:DigestValue>`)
-	reReq     = regexp.MustCompile(`SAMLRequest=[^&]*`)
-	reSigPar  = regexp.MustCompile(`Signature=[^&]*`)
-	reRefURI  = regexp.MustCompile(`URI="#_[0-9a-f-]{36}"`)
+	reID     = regexp.MustCompile(`ID="_[0-9a-f-]{36}"`)
+	reSigVal = regexp.MustCompile(`(?s)<ds:SignatureValue>.*?</ds:SignatureValue>`)
+	reDigest = regexp.MustCompile(`(?s)<ds:DigestValue>.*?</ds:DigestValue>`)
+	reReq    = regexp.MustCompile(`SAMLRequest=[^&]*`)
+	reSigPar = regexp.MustCompile(`Signature=[^&]*`)
+	reRefURI = regexp.MustCompile(`URI="#_[0-9a-f-]{36}"`)
 )
 
 // stable removes what legitimately differs between two calls (fresh ID, signature over it).
